@@ -10,6 +10,12 @@ theorem C08_tie_source : Generated.addrMarkers = [ANY_ADDRESS, NO_ADDRESS, SOME_
     Generated.addrBaseKeys = addrAnalysis.baseKeys ∧ Generated.ZERO_ADDRESS = ZERO_ADDRESS :=
   ⟨Tie.consts_tie.2.2.2.2.2.2.2.2.2.2.1, Tie.consts_tie.2.2.2.2.2.2.2.2.2.2.2.1, Tie.consts_tie.2.2.2.1⟩
 
+/-- tie to today's source, lattice: the model's address union / intersection are the functions translated on this run from
+    the Python AST of AddrFields._union / _intersection -/
+theorem C08_tie_lattice (a b : AddrSet) :
+    addrAnalysis.dom.union a b = Generated.addrUnion a b ∧ addrAnalysis.dom.inter a b = Generated.addrInter a b :=
+  ⟨Tie.addr_union_tie a b, Tie.addr_inter_tie a b⟩
+
 theorem C08_union_sound (a b : AddrSet) (v : String) :
     Addr.gamma a v ∨ Addr.gamma b v → Addr.gamma (addrUnion a b) v := Addr.union_sound a b v
 
